@@ -7,6 +7,14 @@ HERE = os.path.dirname(os.path.dirname(os.path.abspath(__file__)))
 
 # id -> (level category, technique, level text, level note, design ref)
 CHECKS = {
+    'C15': ('fault_enumeration', 'exception classifier over structurally mutated documents + out-event refusal predicate computed on the mutated document',
+            'Held on the mutants of the run (20k quick / 500k thorough, 1-3 faults each, twelve fault kinds) plus hand-made documents and non-object roots.',
+            'Only valid JSON is fed; a text the JSON decoder itself refuses is counted, not judged. Known finding D10 (RecursionError at ~500 nested namespaces).',
+            'DESIGN.md section 3 C15'),
+    'C16': ('exploration', 'history monitor: every process() result of an interleaved history vs the IR expectation / a fresh child interpreter',
+            'Held on the histories of the run (3-20 operations over 2-4 documents and 1-4 live parser instances).',
+            'Primary oracle is the IR expectation (independent of dznpy); one history in ten also uses fresh child interpreters.',
+            'DESIGN.md section 3 C16'),
     'C12': ('exploration', 'deep snapshots of model/configuration around every build + per-build comparison with a fresh child interpreter',
             'Held on the histories of the run (3-12 builds over shared parsed models, valid and invalid configurations, edited model variants, reused Builder/Configuration objects).',
             'Observable change = difference of deep structural snapshots; reference = same (document, configuration) built alone in a fresh process.',
